@@ -543,8 +543,10 @@ def c20_construct(job):
         if job.get("order") == "solver_first":
             from mdpax.problems import Forest
             scls(problem=Forest(S=3), **({"gamma": 1.0} if name == "rvi" else {}), **({"period": 2} if name == "pvi" else {}), verbose=0)
+        problem_obj = None
         if job["route"] == "kwargs":
-            solver = scls(problem=pcls(**pparams), **cfg)
+            problem_obj = pcls(**pparams)
+            solver = scls(problem=problem_obj, **cfg)
         elif job["route"] == "config_only":
             solver = scls(config=scls.Config(problem=pcfg(**pparams), **cfg))
         elif job["route"] == "yaml":
@@ -570,6 +572,16 @@ def c20_construct(job):
             return dict(out, raised=type(e).__name__, message=str(e)[:300], stage="solve")
         out.update({"values": _fx(st.values), "dtype": str(np.asarray(st.values).dtype), "iteration": int(st.info.iteration),
                     "policy": _canon_policy(solver.problem, st.policy), "returned": True})
+        if job.get("twice") and problem_obj is not None:
+            # a SECOND solver on the SAME problem object, built when 64-bit mode is certainly on: same problem data, so any
+            # difference from the first solver is the solver's own precision handling
+            try:
+                s2 = scls(problem=problem_obj, **cfg)
+                st2 = s2.solve(max_iterations=int(job["solve"]))
+                out["second"] = {"values": _fx(st2.values), "dtype": str(np.asarray(st2.values).dtype), "iteration": int(st2.info.iteration),
+                                 "policy": _canon_policy(s2.problem, st2.policy), "gamma_used": float(s2.gamma).hex()}
+            except Exception as e:  # noqa: BLE001
+                out["second"] = {"raised": type(e).__name__, "message": str(e)[:300]}
     return dict(out, ok=True)
 
 
